@@ -27,6 +27,22 @@ pub fn gen_script(rng: &mut Rng, steps: usize) -> Sx {
         });
     }
     let mut ops: Vec<Sx> = (0..natoms).map(|k| list(vec![atom("A"), num(k)])).collect();
+    // half of the scripts start from vectors that refine ONE tag and include others as a whole (the complement of a
+    // literal, a literal next to a whole tag): pairs of them refine different tags, which is where the per-tag merge of two
+    // vectors has nothing to pair
+    if rng.chance(1, 2) {
+        for _ in 0..(2 + rng.below(3)) {
+            let i = rng.below(natoms);
+            let j = rng.below(natoms);
+            ops.push(if rng.chance(1, 2) { list(vec![atom("C"), num(i)]) } else { list(vec![atom("U"), num(i), num(j)]) });
+        }
+        let n = ops.len();
+        for _ in 0..2 {
+            let i = natoms + rng.below(n - natoms);
+            let j = natoms + rng.below(n - natoms);
+            ops.push(list(vec![atom(if rng.chance(2, 3) { "I" } else { "D" }), num(i), num(j)]));
+        }
+    }
     for _ in 0..steps {
         let n = ops.len();
         let pickidx = |rng: &mut Rng| if rng.chance(1, 2) { n - 1 - rng.below(n.min(4)) } else { rng.below(n) };
